@@ -35,6 +35,9 @@ type pop struct {
 	name string
 	args []num
 	text string // shown token
+	// emptyStr: the operand is an empty string, written "()" or "<>" (a blank
+	// line idiom with ' and "): nothing is shown, the line move still happens
+	emptyStr string
 	ref  string // font / form name
 }
 
@@ -52,6 +55,8 @@ func (p pop) String() string {
 	}
 	if p.text != "" {
 		sb.WriteString("(" + p.text + ") ")
+	} else if p.emptyStr != "" {
+		sb.WriteString(p.emptyStr + " ") // "()" or "<>": a show operator with no character codes
 	}
 	sb.WriteString(p.name)
 	return sb.String()
@@ -275,6 +280,16 @@ func (g *genState) textObject(out *[]pop) {
 		case choice == 3 && g.quotes:
 			if !g.haveFont {
 				*out = append(*out, g.tf())
+			}
+			if g.r.Intn(5) == 0 {
+				// blank lines: ' and " with an empty string move to the next line and show nothing
+				es := []string{"()", "<>"}[g.r.Intn(2)]
+				if g.r.Intn(2) == 0 {
+					*out = append(*out, pop{name: "'", emptyStr: es})
+				} else {
+					*out = append(*out, pop{name: "\"", emptyStr: es, args: []num{mkNum(float64(g.r.Intn(300))/100, 2), mkNum(float64(g.r.Intn(100))/100, 2)}})
+				}
+				g.p.features["quote-empty-string"] = true
 			}
 			if g.r.Intn(2) == 0 {
 				*out = append(*out, pop{name: "'", text: g.tok.Next()})
